@@ -21,6 +21,8 @@ type c11Params struct {
 	Senders  int    `json:"senders"`  // concurrent senders inside the window
 	BigBytes int    `json:"big_bytes"` // >0: sender 1 sends a multi-chunk message of this payload size
 	Renew    string `json:"renew"`    // "", "call" (explicit Renew in the window)
+	Eager    bool   `json:"prompt_peer"` // the side that is not judged answers promptly and is not part of the interleaving
+	Delay    bool   `json:"delay_bounded"`
 }
 
 type c11Obs struct {
@@ -34,7 +36,10 @@ func c11Body(p c11Params) func() {
 		obs := &c11Obs{}
 		c11obs = obs
 		ctx := context.Background()
-		srv := &echoServer{cfg: noneCfg(3600000, 0)}
+		srv := &echoServer{cfg: noneCfg(3600000, 0), eager: p.Eager && p.Side == "client"}
+		if p.BigBytes > 0 {
+			srv.ack = smallAck() // 8 KiB chunks, so that BigBytes spans several chunks
+		}
 		if p.Side == "server" {
 			// the server answers every request from its own goroutine, so that responders run concurrently
 			var wg sync.WaitGroup
@@ -152,21 +157,22 @@ func c11Scenarios(thorough bool) []driver.Scenario {
 	var out []driver.Scenario
 	add := func(p c11Params, bound, maxExec int) {
 		out = append(out, driver.Scenario{
-			Name:   fmt.Sprintf("c11/%s/senders=%d/big=%d/renew=%s", p.Side, p.Senders, p.BigBytes, p.Renew),
-			Params: p, Cfg: vrt.Config{Horizon: int64(60 * time.Second)},
+			Name:   fmt.Sprintf("c11/%s/senders=%d/big=%d/renew=%s/prompt_peer=%v/delay_bounded=%v", p.Side, p.Senders, p.BigBytes, p.Renew, p.Eager, p.Delay),
+			Params: p, Cfg: vrt.Config{Horizon: int64(60 * time.Second), DelayBounded: p.Delay},
 			Body: c11Body(p), Check: c11Check(p), Bound: bound, MaxExec: maxExec, NeedsConflict: true,
 		})
 	}
 	if thorough {
-		add(c11Params{Side: "client", Senders: 2, Renew: "call"}, 2, 0)
-		add(c11Params{Side: "client", Senders: 2, BigBytes: 20000, Renew: "call"}, 1, 0)
-		add(c11Params{Side: "client", Senders: 3, BigBytes: 20000}, 1, 0)
-		add(c11Params{Side: "server", Senders: 2, BigBytes: 20000, Renew: "call"}, 1, 0)
-		add(c11Params{Side: "server", Senders: 3}, 2, 0)
-	} else {
+		add(c11Params{Side: "client", Senders: 2, Renew: "call", Eager: true}, 2, 0)
+		add(c11Params{Side: "client", Senders: 2, BigBytes: 20000, Renew: "call", Eager: true}, 2, 0)
+		add(c11Params{Side: "client", Senders: 3, BigBytes: 20000, Eager: true}, 2, 0)
 		add(c11Params{Side: "client", Senders: 2, Renew: "call"}, 1, 0)
-		add(c11Params{Side: "client", Senders: 2, BigBytes: 20000}, 1, 0)
 		add(c11Params{Side: "server", Senders: 2, BigBytes: 20000}, 1, 0)
+		add(c11Params{Side: "server", Senders: 3}, 1, 0)
+	} else {
+		add(c11Params{Side: "client", Senders: 2, Renew: "call", Delay: true}, 2, 0)
+		add(c11Params{Side: "client", Senders: 2, BigBytes: 20000, Renew: "call", Delay: true}, 2, 0)
+		add(c11Params{Side: "server", Senders: 2, BigBytes: 20000, Delay: true}, 2, 0)
 	}
 	return out
 }
